@@ -38,13 +38,25 @@ func c20RefEq(label string, r *protocol.BlockRef, typ protocol.MessageType, inst
 }
 
 // builds a VIEW_CHANGE by party 0 with (optionally) a prepared proof of `prepares` PREPAREs by parties 2.., PREPREPARE by party 1
+// c20PrepareView / c20NoPreprepare: shapes the factory accepts although no correct node produces them
+// (PREPAREs of another view than the PREPREPARE; a proof without PREPREPARE part).
+var c20PrepareView func(pv primitives.View) primitives.View
+var c20NoPreprepare bool
+
 func c20BuildVote(ps []*c20Party, h primitives.BlockHeight, v, pv primitives.View, hash primitives.BlockHash, block *stub.Block, withProof bool, prepares int) (*interfaces.ViewChangeMessage, *preparedmessages.PreparedMessages) {
 	var prepared *preparedmessages.PreparedMessages
 	if withProof {
 		ppm := ps[1].f.CreatePreprepareMessage(h, pv, block, hash)
+		pview := pv
+		if c20PrepareView != nil {
+			pview = c20PrepareView(pv)
+		}
 		pms := make([]*interfaces.PrepareMessage, 0, prepares)
 		for j := 0; j < prepares; j++ {
-			pms = append(pms, ps[2+j].f.CreatePrepareMessage(h, pv, hash))
+			pms = append(pms, ps[2+j].f.CreatePrepareMessage(h, pview, hash))
+		}
+		if c20NoPreprepare {
+			ppm = nil
 		}
 		prepared = &preparedmessages.PreparedMessages{PreprepareMessage: ppm, PrepareMessages: pms}
 		if prepares == 0 {
@@ -65,11 +77,19 @@ func c20CheckVoteContent(prefix string, c *protocol.ViewChangeMessageContent, km
 	if !withProof || !hasProof {
 		return
 	}
-	c20RefEq(prefix+".proof.pp_ref", proof.PreprepareBlockRef(), protocol.LEAN_HELIX_PREPREPARE, inst, h, pv, hash)
-	env.Assert(prefix+".proof.pp_sender", env.EqBytes(proof.PreprepareSender().MemberId(), ps[1].id))
-	env.Assert(prefix+".proof.pp_sig_verifies", km.VerifyConsensusMessage(h, proof.PreprepareBlockRef().Raw(), proof.PreprepareSender()) == nil)
+	if c20NoPreprepare {
+		env.Assert(prefix+".proof.pp_absent", len(proof.PreprepareBlockRef().Raw()) == 0 && len(proof.PreprepareSender().Raw()) == 0)
+	} else {
+		c20RefEq(prefix+".proof.pp_ref", proof.PreprepareBlockRef(), protocol.LEAN_HELIX_PREPREPARE, inst, h, pv, hash)
+		env.Assert(prefix+".proof.pp_sender", env.EqBytes(proof.PreprepareSender().MemberId(), ps[1].id))
+		env.Assert(prefix+".proof.pp_sig_verifies", km.VerifyConsensusMessage(h, proof.PreprepareBlockRef().Raw(), proof.PreprepareSender()) == nil)
+	}
 	if prepares > 0 {
-		c20RefEq(prefix+".proof.p_ref", proof.PrepareBlockRef(), protocol.LEAN_HELIX_PREPARE, inst, h, pv, hash)
+		pview := pv
+		if c20PrepareView != nil {
+			pview = c20PrepareView(pv)
+		}
+		c20RefEq(prefix+".proof.p_ref", proof.PrepareBlockRef(), protocol.LEAN_HELIX_PREPARE, inst, h, pview, hash)
 	}
 	it := proof.PrepareSendersIterator()
 	j := 0
@@ -85,7 +105,19 @@ func c20CheckVoteContent(prefix string, c *protocol.ViewChangeMessageContent, km
 }
 
 // C20_ViewChange: VIEW_CHANGE with/without prepared proof -> raw -> parse.
+func c20Shape() {
+	c20PrepareView, c20NoPreprepare = nil, false
+	switch env.Param("shape") {
+	case 1: // PREPAREs of an independent symbolic view
+		other := primitives.View(env.NondetU64("prepare_view"))
+		c20PrepareView = func(pv primitives.View) primitives.View { return other }
+	case 2: // no PREPREPARE part
+		c20NoPreprepare = true
+	}
+}
+
 func C20_ViewChange() {
+	c20Shape()
 	idLen, hashLen, prepares := env.Param("idlen"), env.Param("hashlen"), env.Param("prepares")
 	withProof := env.Param("proof") == 1
 	reg := stub.NewRegistry()
@@ -105,7 +137,7 @@ func C20_ViewChange() {
 		return
 	}
 	env.Assert("C20.VC.accessors", env.And(m.MessageType() == protocol.LEAN_HELIX_VIEW_CHANGE, env.And(m.InstanceId() == inst, env.And(m.BlockHeight() == h, env.And(m.View() == v, env.EqBytes(m.SenderMemberId(), ps[0].id))))))
-	if withProof {
+	if withProof && !c20NoPreprepare { // the factory takes the block from the PREPREPARE part
 		env.Assert("C20.VC.block", m.Block() == interfaces.Block(block))
 	} else {
 		env.Assert("C20.VC.block", m.Block() == nil)
@@ -117,6 +149,7 @@ func C20_ViewChange() {
 
 // C20_NewView: `votes` VIEW_CHANGE messages re-encoded field by field into a NEW_VIEW -> raw -> parse.
 func C20_NewView() {
+	c20Shape()
 	idLen, hashLen, votes, prepares := env.Param("idlen"), env.Param("hashlen"), env.Param("votes"), env.Param("prepares")
 	proofMask := env.Param("proofmask")
 	reg := stub.NewRegistry()
